@@ -33,6 +33,16 @@ rewrite -fold_countE; elim: l n => //= x l IH n; rewrite IH.
 by case: (f x) => //; rewrite Nat.add_comm.
 Qed.
 
+(* two lists filled by one loop  for x in l: (a if f x else b).append(x)  are the two filters *)
+Lemma fold_partitionE (A : Type) (f : A -> bool) (step : list A * list A -> A -> list A * list A) (l a0 b0 : list A) :
+  (forall a b x, step (a, b) x = if f x then (a ++ [:: x], b)%list else (a, b ++ [:: x])%list) ->
+  fold_left step l (a0, b0) =
+  ((a0 ++ List.filter f l)%list, (b0 ++ List.filter (fun x => negb (f x)) l)%list).
+Proof.
+move=> H; elim: l a0 b0 => [|x l IH] a0 b0 /=; first by rewrite !List.app_nil_r.
+by rewrite H; case: (f x) => /=; rewrite IH -?List.app_assoc.
+Qed.
+
 Lemma size_sort_desc' (A : Type) (lt : A -> A -> bool) (l : list A) : size (sort_desc lt l) = size l.
 Proof.
 have ins x s : size (insert_desc lt x s) = (size s).+1.
@@ -170,7 +180,10 @@ Lemma gen_active_p_succ_eq (pfit : option (fitness (T:=R))) pop :
 Proof.
 rewrite /gen_active_p_succ /active_p_succ; cbv zeta.
 first [ reflexivity
-      | set v := List.filter _ pop;
+      | try (rewrite (@fold_partitionE _ (fun i : aind (T:=R) => f_valid (ai_fit i)));
+             last by move=> a b x; case: (f_valid _));
+        rewrite ?[List.app nil _]/=;
+        set v := List.filter _ pop;
         have := size_sort_desc' (fun a b : aind (T:=R) => c_lt RO (ai_fit a) (ai_fit b)) v;
         case: v => [|x l]; first by [];
         rewrite [Nat.ltb _ _]/= ?[Nat.leb _ _]/=;
